@@ -230,9 +230,9 @@ impl Compactor {
         loop {
             {
                 let tables = self.storage.tables.read().clone();
-                let pin_version = self.storage.version.pin();
                 #[cfg(risinglight_verif)]
-                crate::verif::point("cp.pinned", &pin_version.epoch.to_string()).await;
+                crate::verif::point("cp.pass.begin", "").await;
+                let pin_version = self.storage.version.pin();
                 for (_, table) in tables {
                     #[cfg(risinglight_verif)]
                     crate::verif::point("cp.table", &table.table_id().to_string()).await;
